@@ -10,7 +10,7 @@ Mth(file, verb, route, hidden, deprecated, sec) ==
     [file |-> file, verb |-> verb, route |-> route, hidden |-> hidden, deprecated |-> deprecated, sec |-> sec,
      ret |-> <<"error">>, errors |-> <<>>, response |-> 0, desc |-> ""]
 
-SecShapes == { <<>>, <<S("s1", <<>>)>>, <<S("s1", <<"r">>), S("s2", <<"w", "x">>)>>, <<S("s2", <<>>), S("s2", <<"r">>)>> }
+SecShapes == { <<>>, <<S("s1", <<>>)>>, <<S("s1", <<"r">>), S("s2", <<"w", "x">>)>>, <<S("s2", <<>>), S("s2", <<"r">>)>>, <<S("s2", <<"w">>), S("s1", <<>>)>> }
 SecShapesU == SecShapes \cup { <<S("s9", <<>>)>> }       \* s9 is never declared
 
 \* ---- C04: one route, every combination of the three security levels, enforce, default, declared/undeclared -------------
@@ -30,6 +30,87 @@ CtrlsSim == { Ctl(pk, f, n, pre, tg, sec) : pk \in {"p1", "p2"}, f \in {"f1", "f
                                             pre \in {"", "/a", "/a/", "/{t}", "/b", "/c/d"}, tg \in {"A", "Tag B"}, sec \in SecShapes }
 MethodsSim == { Mth(f, v, r, h, d, sec) : f \in {"", "f1", "f2"}, v \in {"GET", "POST", "PUT", "DELETE", "PATCH"},
                                           r \in {"/", "/x", "x", "//x", "/x/", "/{id}", "/{id}/y", "/x/{id}", "/y"}, h \in BOOLEAN, d \in BOOLEAN, sec \in SecShapes }
+\* ---- C06: parameter lists, pointer-ness, locations, aliases, validators, return shapes, error responses --------------------
+NoTypes == {<<>>}
+Fld(n, t, js, v) == [name |-> n, type |-> t, json |-> js, valid |-> v, desc |-> "", embed |-> FALSE]
+Con(n, v) == [name |-> n, value |-> v]
+TItem  == [pkg |-> "p1", file |-> "types", name |-> "Item", kind |-> "struct", base |-> "", fields |-> <<Fld("Name", "string", "name", "required"), Fld("Count", "*int", "count", "")>>,
+           consts |-> <<>>, desc |-> "An item", raw |-> "", errorT |-> FALSE]
+TMyErr == [pkg |-> "p1", file |-> "types", name |-> "MyErr", kind |-> "struct", base |-> "", fields |-> <<Fld("Code", "int", "code", "")>>,
+           consts |-> <<>>, desc |-> "", raw |-> "", errorT |-> TRUE]
+TColor == [pkg |-> "p1", file |-> "types", name |-> "Color", kind |-> "enum", base |-> "string", fields |-> <<>>,
+           consts |-> <<Con("Red", "\"red\""), Con("Blue", "\"blue\"")>>, desc |-> "", raw |-> "", errorT |-> FALSE]
+StdTypes == {<<TItem, TMyErr, TColor>>}
+
+Prm(n, t, k, al, v) == [name |-> n, type |-> t, kind |-> k, alias |-> al, validate |-> v]
+ParamsC06 ==
+    { Prm(n, t, "Path", al, "") : n \in {"a"}, t \in {"string", "int", "p1.Color"}, al \in {"", "x_a"} }
+    \cup { Prm(n, t, "Query", al, v) : n \in {"b"}, t \in {"string", "*string", "int", "*int", "bool", "float64", "[]string", "[]int", "p1.Color", "*p1.Color"},
+                                         al \in {"", "x-b"}, v \in {"", "required", "omitempty"} }
+    \cup { Prm(n, t, "Header", al, v) : n \in {"c"}, t \in {"string", "*string", "int", "*bool"}, al \in {"", "X-C"}, v \in {"", "required"} }
+    \cup { Prm(n, t, "FormField", "", v) : n \in {"d"}, t \in {"string", "*int"}, v \in {"", "required"} }
+    \cup { Prm(n, t, "Body", "", v) : n \in {"e"}, t \in {"p1.Item", "*p1.Item", "[]p1.Item"}, v \in {"", "required"} }
+    \cup { Prm("ctx", "context.Context", "Context", "", "") }
+
+Wire(pm) == IF pm.alias # "" THEN pm.alias ELSE pm.name
+RECURSIVE RouteFor(_, _)
+RouteFor(ps, i) == IF i > Len(ps) THEN "" ELSE (IF ps[i].kind = "Path" THEN "/{" \o Wire(ps[i]) \o "}" ELSE "") \o RouteFor(ps, i + 1)
+SigOf(ps)  == [i \in DOMAIN ps |-> [name |-> ps[i].name, type |-> ps[i].type]]
+RECURSIVE AnnsOf(_, _)
+AnnsOf(ps, i) == IF i > Len(ps) THEN <<>>
+                 ELSE (IF ps[i].kind = "Context" THEN <<>> ELSE <<[kind |-> ps[i].kind, value |-> ps[i].name, alias |-> ps[i].alias, validate |-> ps[i].validate, desc |-> ""]>>) \o AnnsOf(ps, i + 1)
+ParamListOk(ps) == /\ \A i, j \in DOMAIN ps : i # j => ps[i].name # ps[j].name
+                   /\ Cardinality({i \in DOMAIN ps : ps[i].kind = "Body"}) <= 1
+                   /\ ~((\E i \in DOMAIN ps : ps[i].kind = "Body") /\ (\E i \in DOMAIN ps : ps[i].kind = "FormField"))
+\* single parameters exhaustively; pairs and triples over a reduced set (one representative per location/pointer-ness)
+ParamsPair == { Prm("a", "string", "Path", "", ""), Prm("a", "int", "Path", "x_a", ""), Prm("b", "*int", "Query", "", ""), Prm("b", "[]string", "Query", "x-b", "required"),
+                Prm("c", "*string", "Header", "X-C", ""), Prm("c", "int", "Header", "", ""), Prm("d", "string", "FormField", "", ""), Prm("d", "*int", "FormField", "", "required"),
+                Prm("e", "p1.Item", "Body", "", ""), Prm("e", "*p1.Item", "Body", "", ""), Prm("ctx", "context.Context", "Context", "", "") }
+ParamLists == {<<>>} \cup {<<a>> : a \in ParamsC06} \cup {ps \in {<<a, b>> : a \in ParamsPair, b \in ParamsPair} : ParamListOk(ps)}
+              \cup {ps \in {<<Prm("ctx", "context.Context", "Context", "", ""), a, b>> : a \in ParamsPair, b \in ParamsPair} : ParamListOk(ps)}
+E(code) == [code |-> code, desc |-> ""]
+RetShapes == { <<"error">>, <<"string", "error">>, <<"p1.Item", "error">>, <<"[]p1.Item", "error">>, <<"*p1.Item", "error">>, <<"p1.MyErr">>, <<"p1.Item", "p1.MyErr">> }
+MthP(verb, ps, ret, errs, resp) ==
+    [file |-> "", verb |-> verb, route |-> RouteFor(ps, 1), uniq |-> TRUE, hidden |-> FALSE, deprecated |-> FALSE, sec |-> <<>>,
+     sig |-> SigOf(ps), anns |-> AnnsOf(ps, 1), ret |-> ret, errors |-> errs, response |-> resp, desc |-> ""]
+CfgsC06 == { Cfg("gin", v, FALSE, NoSec, <<"s1">>) : v \in {"3.0.0", "3.1.0"} }
+CtrlsC06 == { Ctl("p1", "f1", "AController", "/a", "A", <<>>) }
+MethodsC06 == { MthP(verb, ps, ret, errs, resp) : verb \in {"POST"}, ps \in ParamLists, ret \in RetShapes,
+                                                    errs \in {<<>>, <<E(500)>>, <<E(400), E(500)>>}, resp \in {0, 201} }
+
+\* ---- C10 / C18: every single and double perturbation of two well-formed base routes --------------------------------------
+An(k, v, al) == [kind |-> k, value |-> v, alias |-> al, validate |-> "", desc |-> ""]
+Sg(n, t) == [name |-> n, type |-> t]
+BaseJ == [file |-> "", verb |-> "POST", route |-> "/r/{a}", hidden |-> FALSE, deprecated |-> FALSE, sec |-> <<>>,
+          sig |-> <<Sg("a", "string"), Sg("b", "*int"), Sg("c", "string"), Sg("e", "p1.Item")>>,
+          anns |-> <<An("Path", "a", ""), An("Query", "b", ""), An("Header", "c", "x-c"), An("Body", "e", "")>>,
+          ret |-> <<"p1.Item", "error">>, errors |-> <<E(500)>>, response |-> 0, desc |-> "base", ptag |-> ""]
+BaseF == [BaseJ EXCEPT !.route = "/r/{id}/x", !.sig = <<Sg("ctx", "context.Context"), Sg("a", "int"), Sg("d", "string")>>,
+                       !.anns = <<An("Path", "a", "id"), An("FormField", "d", "")>>, !.ret = <<"error">>]
+Rm(sq, i) == [j \in 1..(Len(sq) - 1) |-> IF j < i THEN sq[j] ELSE sq[j + 1]]
+Tag(b, t) == IF b.ptag = "" THEN t ELSE b.ptag \o "+" \o t
+Perturb1(b) ==
+       { [b EXCEPT !.anns = Rm(b.anns, i), !.ptag = Tag(b, "dropAnn:" \o b.anns[i].kind)] : i \in DOMAIN b.anns }
+  \cup { [b EXCEPT !.anns = Append(b.anns, b.anns[i]), !.ptag = Tag(b, "dupAnn:" \o b.anns[i].kind)] : i \in DOMAIN b.anns }
+  \cup { [b EXCEPT !.anns[i].value = "zz", !.ptag = Tag(b, "renameAnn:" \o b.anns[i].kind)] : i \in DOMAIN b.anns }
+  \cup { [b EXCEPT !.anns[pr[1]].value = b.anns[pr[2]].value, !.ptag = Tag(b, "retargetAnn:" \o b.anns[pr[1]].kind \o ">" \o b.anns[pr[2]].kind)]
+            : pr \in {x \in (DOMAIN b.anns) \X (DOMAIN b.anns) : x[1] # x[2]} }
+  \cup { [b EXCEPT !.anns[pr[1]].kind = pr[2], !.ptag = Tag(b, "retypeAnn:" \o b.anns[pr[1]].kind \o ">" \o pr[2])]
+            : pr \in {x \in (DOMAIN b.anns) \X {"Path", "Query", "Body"} : b.anns[x[1]].kind # x[2]} }
+  \cup { [b EXCEPT !.sig = Rm(b.sig, i), !.ptag = Tag(b, "dropParam:" \o b.sig[i].name)] : i \in DOMAIN b.sig }
+  \cup { [b EXCEPT !.sig[i].name = "yy", !.ptag = Tag(b, "renameParam:" \o b.sig[i].name)] : i \in DOMAIN b.sig }
+  \cup { [b EXCEPT !.sig[pr[1]].type = pr[2], !.ptag = Tag(b, "retypeParam:" \o b.sig[pr[1]].name \o ">" \o pr[2])]
+            : pr \in {x \in (DOMAIN b.sig) \X {"p1.Item", "[]string", "map[string]string", "p1.Color", "string"} :
+                          b.sig[x[1]].type # "context.Context" /\ b.sig[x[1]].type # x[2]} }
+  \cup { [b EXCEPT !.route = r, !.ptag = Tag(b, "route:" \o r)] : r \in {"/r", "/r/{a}/{a}", "/r/{zz}", "/r/{a}/{id}", "/r/{id}"} \ {b.route} }
+  \cup { [b EXCEPT !.ret = r, !.ptag = Tag(b, "ret")] : r \in {<<>>, <<"p1.Item">>, <<"string", "string", "error">>, <<"p1.Item", "string">>, <<"p1.MyErr">>, <<"string", "p1.MyErr">>} \ {b.ret} }
+  \cup { [b EXCEPT !.verb = v, !.ptag = Tag(b, "verb:" \o v)] : v \in {"HEAD", "OPTIONS", "FETCH", "get", "DELETE"} }
+Perturb2(b) == UNION {Perturb1(x) : x \in Perturb1(b)}
+CfgsC10 == { Cfg("gin", "3.0.0", FALSE, NoSec, <<"s1">>) }
+CtrlsC10 == { Ctl("p1", "f1", "AController", pre, "A", <<>>) : pre \in {"/a", "/a/{t}"} }
+MethodsC10single == {BaseJ, BaseF} \cup Perturb1(BaseJ) \cup Perturb1(BaseF)
+MethodsC10double == Perturb2(BaseJ) \cup Perturb2(BaseF)
+
 \* ---- model checking of the session machine: small input space, every schedule ------------------------------------------
 CfgsM == { Cfg("gin", v, e, NoSec, <<"s1">>) : v \in {"3.0.0", "3.1.0"}, e \in BOOLEAN } \cup { Cfg("nope", "3.0.0", FALSE, NoSec, <<"s1">>) }
 CtrlsM == { Ctl("p1", "f1", "AController", "/a", "A", <<>>), Ctl("p2", "f2", "BController", "/b", "B", <<S("s1", <<>>)>>), Ctl("p1", "f2", "CController", "/c", "C", <<S("s9", <<>>)>>) }
